@@ -36,7 +36,7 @@ def run(tier, seed, replay=None):
         rep = [s for s in states if s["out"]["dec"] == "repulsion"]
         oth = [s for s in states if s["out"]["dec"] != "repulsion"]
         states = rnd.sample(rep, min(len(rep), nmax // 2)) + rnd.sample(oth, min(len(oth), nmax // 2))
-    builds = ["m1d0", "m0d0"] if tier == "quick" else ["m1d0", "m0d0", "m2d0"]
+    builds = ["m1d0", "m0d0", "m2d0"]        # every contact model in both tiers
     if replay:
         with open(replay) as f:
             r = json.load(f)["case"]
